@@ -17,6 +17,14 @@ Kernels:
   transitions.py     Transition._match_state, Transition.is_valid_transition, MachineTransition/TransportTransition tables
   buffer_type_utils  is_correct_position_for_buffer_type
   middleware.py      SubTimeStepper.should_truncate
+  job_type_utils     all_operations_done, no_operation_idle, is_job_running, is_done      (quantifiers over job.operations)
+  core_utils         no_processing_operations, is_done                                   (for-loops with early return)
+  buffer_type_utils  get_output_buffers (shape only), get_next_job_from_buffer
+For these the idioms are recognised literally (fail closed on any other shape):
+  all(/any( <op>.operation_state_state ==|!= OperationStateState.M for <op> in job.operations )
+  for <v> in <xs>: if <c>: return False ... ; return True
+  <ids> = [b.id for b in <output buffers of the instance>] ;  <x>.location in <ids>     -> is_output i (j_loc x)
+  store[0], store[-1], `a if c else b`, `not store`
 """
 import ast
 import os
@@ -24,7 +32,7 @@ import sys
 from pathlib import Path
 
 REPO = Path(os.environ.get("JSL_REPO", "/repo"))
-OUT = Path(__file__).resolve().parent.parent / "coq" / "Gen" / "Kernels.v"
+OUT = Path(os.environ.get("JSL_KERNELS_OUT", str(Path(__file__).resolve().parent.parent / "coq" / "Gen" / "Kernels.v")))
 
 
 class Unsupported(Exception):
@@ -315,6 +323,186 @@ def gen_table(tmod, cls, name):
             "Definition %s_keys : list cat := %s.\n" % (name, "\n".join(arms), name, keys))
 
 
+OSTATE = {"IDLE": "OIdle", "PROCESSING": "OProc", "DONE": "ODone", "TRANSPORT": "OTransport"}
+OUTPUT_IDS_SHAPES = {
+    "[b.id for b in instance.buffers if b.role == BufferRoleConfig.OUTPUT]",
+    "[b.id for b in buffer_type_utils.get_output_buffers(instance)]",
+}
+
+
+def body_wo_doc(f):
+    b = list(f.body)
+    if b and isinstance(b[0], ast.Expr) and isinstance(b[0].value, ast.Constant) and isinstance(b[0].value.value, str):
+        b = b[1:]
+    return b
+
+
+def op_state_cmp(node, var):
+    """<var>.operation_state_state ==|!= OperationStateState.M  ->  Coq boolean on (o : op)"""
+    if not (isinstance(node, ast.Compare) and len(node.ops) == 1 and isinstance(node.ops[0], (ast.Eq, ast.NotEq))):
+        raise Unsupported("operation-state comparison: " + ast.unparse(node))
+    l, r = node.left, node.comparators[0]
+    if not (isinstance(l, ast.Attribute) and l.attr == "operation_state_state" and isinstance(l.value, ast.Name) and l.value.id == var):
+        raise Unsupported("operation-state comparison lhs: " + ast.unparse(node))
+    if not (isinstance(r, ast.Attribute) and isinstance(r.value, ast.Name) and r.value.id == "OperationStateState" and r.attr in OSTATE):
+        raise Unsupported("operation-state comparison rhs: " + ast.unparse(node))
+    e = "(ostate_eqb (o_st o) %s)" % OSTATE[r.attr]
+    return e if isinstance(node.ops[0], ast.Eq) else "(negb %s)" % e
+
+
+def quantifier(node, jobvar):
+    """all(/any( <cmp> for v in <jobvar>.operations )"""
+    if not (isinstance(node, ast.Call) and isinstance(node.func, ast.Name) and node.func.id in ("all", "any")
+            and len(node.args) == 1 and isinstance(node.args[0], ast.GeneratorExp) and not node.keywords):
+        raise Unsupported("quantifier: " + ast.unparse(node))
+    g = node.args[0]
+    if len(g.generators) != 1 or g.generators[0].ifs or g.generators[0].is_async:
+        raise Unsupported("quantifier generators")
+    c = g.generators[0]
+    if not (isinstance(c.target, ast.Name) and ast.unparse(c.iter) == jobvar + ".operations"):
+        raise Unsupported("quantifier range: " + ast.unparse(c.iter))
+    return "(%s (fun o => %s) (j_ops jb))" % ("forallb" if node.func.id == "all" else "existsb", op_state_cmp(g.elt, c.target.id))
+
+
+def gen_job_quant(mod, name, coqname):
+    f = find_func(mod.body, name)
+    if [a.arg for a in f.args.args] != ["job"]:
+        raise Unsupported(name + " signature")
+    b = body_wo_doc(f)
+    if len(b) != 1 or not isinstance(b[0], ast.Return):
+        raise Unsupported(name + " body")
+    return "Definition %s (jb : job) : bool :=\n  %s.\n" % (coqname, quantifier(b[0].value, "job"))
+
+
+def gen_no_processing(mod):
+    f = find_func(mod.body, "no_processing_operations")
+    b = body_wo_doc(f)
+    if not (len(b) == 2 and isinstance(b[0], ast.For) and isinstance(b[1], ast.Return) and ast.unparse(b[1].value) == "True"
+            and isinstance(b[0].target, ast.Name) and ast.unparse(b[0].iter) == "job.operations" and not b[0].orelse):
+        raise Unsupported("no_processing_operations shape")
+    conds = []
+    for st in b[0].body:
+        if not (isinstance(st, ast.If) and not st.orelse and len(st.body) == 1 and isinstance(st.body[0], ast.Return)
+                and ast.unparse(st.body[0].value) == "False"):
+            raise Unsupported("no_processing_operations loop body")
+        conds.append("(negb %s)" % op_state_cmp(st.test, b[0].target.id))
+    acc = conds[0]
+    for c in conds[1:]:
+        acc = "(andb %s %s)" % (acc, c)
+    return "Definition gen_no_processing_operations (jb : job) : bool :=\n  (forallb (fun o => %s) (j_ops jb)).\n" % acc
+
+
+def output_ids_assign(st):
+    if not (isinstance(st, ast.Assign) and len(st.targets) == 1 and isinstance(st.targets[0], ast.Name)
+            and ast.unparse(st.value) in OUTPUT_IDS_SHAPES):
+        raise Unsupported("output-buffer id list: " + ast.unparse(st)[:120])
+    return st.targets[0].id
+
+
+def located_in_output(node, var, ids):
+    """<var>.location in <ids>  (also `not <var>.location in <ids>` via the caller)"""
+    if not (isinstance(node, ast.Compare) and len(node.ops) == 1 and isinstance(node.ops[0], ast.In)
+            and ast.unparse(node.left) == var + ".location" and ast.unparse(node.comparators[0]) == ids):
+        raise Unsupported("location test: " + ast.unparse(node))
+    return "(is_output i (j_loc jb))"
+
+
+def gen_job_is_done(mod):
+    f = find_func(mod.body, "is_done")
+    if [a.arg for a in f.args.args] != ["job", "instance"]:
+        raise Unsupported("job_type_utils.is_done signature")
+    b = body_wo_doc(f)
+    if len(b) != 2 or not isinstance(b[1], ast.Return):
+        raise Unsupported("job_type_utils.is_done body")
+    ids = output_ids_assign(b[0])
+    r = b[1].value
+    if not (isinstance(r, ast.BoolOp) and isinstance(r.op, ast.And) and len(r.values) == 2
+            and ast.unparse(r.values[0]) == "all_operations_done(job)"):
+        raise Unsupported("job_type_utils.is_done return: " + ast.unparse(r))
+    return ("Definition gen_job_is_done (i : inst) (jb : job) : bool :=\n  (andb (gen_all_operations_done jb) %s).\n"
+            % located_in_output(r.values[1], "job", ids))
+
+
+def gen_core_is_done(mod, bmod):
+    # get_output_buffers must be the filter on the OUTPUT role
+    g = body_wo_doc(find_func(bmod.body, "get_output_buffers"))
+    if not (len(g) == 1 and isinstance(g[0], ast.Return)
+            and ast.unparse(g[0].value) == "tuple((b for b in instance.buffers if b.role == BufferRoleConfig.OUTPUT))"):
+        raise Unsupported("get_output_buffers: " + (ast.unparse(g[0]) if g else "empty"))
+    f = find_func(mod.body, "is_done")
+    if [a.arg for a in f.args.args] != ["state", "instance"]:
+        raise Unsupported("core_utils.is_done signature")
+    b = body_wo_doc(f)
+    if not (len(b) == 3 and isinstance(b[1], ast.For) and isinstance(b[2], ast.Return) and ast.unparse(b[2].value) == "True"
+            and isinstance(b[1].target, ast.Name) and ast.unparse(b[1].iter) == "state.jobs" and not b[1].orelse):
+        raise Unsupported("core_utils.is_done shape")
+    ids = output_ids_assign(b[0])
+    v = b[1].target.id
+    conds = []
+    for st in b[1].body:
+        if not (isinstance(st, ast.If) and not st.orelse and len(st.body) == 1 and isinstance(st.body[0], ast.Return)
+                and ast.unparse(st.body[0].value) == "False"):
+            raise Unsupported("core_utils.is_done loop body")
+        t = st.test
+        if not (isinstance(t, ast.UnaryOp) and isinstance(t.op, ast.Not)):
+            raise Unsupported("core_utils.is_done test: " + ast.unparse(t))
+        t = t.operand
+        if isinstance(t, ast.Compare):
+            conds.append(located_in_output(t, v, ids))
+        elif ast.unparse(t) == "job_type_utils.all_operations_done(%s)" % v:
+            conds.append("(gen_all_operations_done jb)")
+        else:
+            raise Unsupported("core_utils.is_done test: " + ast.unparse(t))
+    acc = conds[0]
+    for c in conds[1:]:
+        acc = "(andb %s %s)" % (acc, c)
+    return "Definition gen_is_done (i : inst) (x : state) : bool :=\n  (forallb (fun jb => %s) (s_jobs x)).\n" % acc
+
+
+def gen_next_job(bmod):
+    f = find_func(bmod.body, "get_next_job_from_buffer")
+    if [a.arg for a in f.args.args] != ["buffer_state", "buffer_config"]:
+        raise Unsupported("get_next_job_from_buffer signature")
+
+    def val(e):
+        u = ast.unparse(e)
+        if u == "None":
+            return "None"
+        if u == "buffer_state.store[0]":
+            return "(hd_error st)"
+        if u == "buffer_state.store[-1]":
+            return "(last_error st)"
+        if isinstance(e, ast.IfExp) and ast.unparse(e.test) == "buffer_state.store":
+            return "(if negb (is_nil_nat st) then %s else %s)" % (val(e.body), val(e.orelse))
+        raise Unsupported("get_next_job_from_buffer value: " + u)
+
+    b = body_wo_doc(f)
+    if not (len(b) == 2 and isinstance(b[0], ast.If) and ast.unparse(b[0].test) == "not buffer_state.store" and not b[0].orelse
+            and len(b[0].body) == 1 and isinstance(b[0].body[0], ast.Return) and isinstance(b[1], ast.Match)
+            and ast.unparse(b[1].subject) == "buffer_config.type"):
+        raise Unsupported("get_next_job_from_buffer shape")
+    empty = val(b[0].body[0].value)
+    arms, covered = [], set()
+    default = None
+    for c in b[1].cases:
+        if c.guard is not None or len(c.body) != 1 or not isinstance(c.body[0], ast.Return):
+            raise Unsupported("get_next_job_from_buffer case")
+        if isinstance(c.pattern, ast.MatchAs) and c.pattern.pattern is None:
+            default = val(c.body[0].value)
+            break
+        k = enum_const(c.pattern.value) if isinstance(c.pattern, ast.MatchValue) else None
+        if k is None or k in covered:
+            raise Unsupported("get_next_job_from_buffer pattern")
+        covered.add(k)
+        arms.append("| %s => %s" % (k, val(c.body[0].value)))
+    if covered != set(BTYPE.values()):
+        if default is None:
+            raise Unsupported("get_next_job_from_buffer: match falls through (returns None implicitly)")
+        arms.append("| _ => %s" % default)
+    return ("Definition gen_next_job (st : list nat) (ty : btype) : option nat :=\n"
+            "  (if is_nil_nat st then %s else match ty with %s end).\n" % (empty, " ".join(arms)))
+
+
 def main():
     tmod = parse("jobshoplab/state_machine/core/transitions.py")
     smod = parse("jobshoplab/types/state_types.py")
@@ -323,7 +511,7 @@ def main():
     imod = parse("jobshoplab/types/instance_config_types.py")
     out = ["(* GENERATED by harness/translate_kernels.py from /repo - do not edit. *)",
            "From Coq Require Import List ZArith Bool.",
-           "From JSL Require Import Base.Res SM.Types SM.Step.",
+           "From JSL Require Import Base.Res SM.Types SM.Util SM.Step.",
            "Import ListNotations.", "",
            "Definition btype_eqb (a b : btype) : bool :=",
            "  match a, b with Fifo, Fifo | Lifo, Lifo | Flex, Flex | Dummy, Dummy => true | _, _ => false end.", ""]
@@ -349,6 +537,20 @@ def main():
     fn = Fn({"self.trunction_active": ("active", "bool"), "self.action_counter": ("actions", "Z"),
              "self.no_op_counter": ("noops", "Z")}, "bool", False, EQS)
     out.append("Definition gen_should_truncate (active : bool) (noops actions : Z) : bool :=\n  %s.\n" % fn.block(f.body))
+    # predicates on the operation records of a job, done-ness, next job of an ordered buffer
+    jmod = parse("jobshoplab/utils/state_machine_utils/job_type_utils.py")
+    cmod = parse("jobshoplab/utils/state_machine_utils/core_utils.py")
+    if {n for n, _ in enum_members(smod, "OperationStateState")} != set(OSTATE):
+        raise Unsupported("members of OperationStateState changed")
+    out.append("Definition is_nil_nat (l : list nat) : bool := match l with [] => true | _ => false end.")
+    out.append("Definition last_error (l : list nat) : option nat := match l with [] => None | h :: _ => Some (last l h) end.\n")
+    out.append(gen_job_quant(jmod, "all_operations_done", "gen_all_operations_done"))
+    out.append(gen_job_quant(jmod, "no_operation_idle", "gen_no_operation_idle"))
+    out.append(gen_job_quant(jmod, "is_job_running", "gen_is_job_running"))
+    out.append(gen_no_processing(cmod))
+    out.append(gen_job_is_done(jmod))
+    out.append(gen_core_is_done(cmod, bmod))
+    out.append(gen_next_job(bmod))
     OUT.parent.mkdir(parents=True, exist_ok=True)
     text = "\n".join(out)
     if not OUT.exists() or OUT.read_text() != text:
